@@ -7,19 +7,41 @@ use crate::c03::{sel_src, gen_sel, SEL_CLASSES, SHAPES};
 use mech_interpreter::*;
 
 /// (definitions, the assignment statement)
+/// definitions and statement of one assignment to `m`. `mode` = `<source>[/<selectors>]`: the source is the
+/// bare variable (`var`), a temporary value `v + zero` (`tmp`) or written in place (`lit`); the selectors are
+/// written in place unless the letters after `/` (one per selector: `l` in place, `v` a variable, `m` a mutable
+/// variable) say otherwise; `:` is always written in place
+fn stmt_parts(s1: &str, s2: &str, op: &str, src: &str, srck: &str, mode: &str, suffix: &str) -> (String, String) {
+  let (srcmode, selforms) = match mode.split_once('/') { Some((a, b)) => (a, b), None => (mode, "") };
+  let forms: Vec<char> = selforms.chars().collect();
+  let vname = format!("v{}", suffix); let zname = format!("z{}", suffix);
+  let mut defs = String::new();
+  let inline = if srcmode == "lit" { crate::c01::operand_inline(srck, src) } else { None };
+  let srcexpr = match inline {
+    Some(t) => t,
+    None => {
+      defs.push_str(&operand_def(&vname, srck, src, false));
+      // (a source that cannot be written in place is the temporary value it replaces)
+      if srcmode == "var" { vname.clone() } else {
+        let zero = match srck { "bool" => "true".to_string(), "string" => "\"\"".to_string(), "r64" => "0/1".to_string(), "c64" => "0+0i".to_string(), "f64" | "f32" => "0.0".to_string(), _ => "0".to_string() };
+        let annot_needed = !(srck == "f64" || srck == "r64" || srck == "c64" || srck == "bool" || srck == "string");
+        defs.push_str(&format!("{}{} := {}\n", zname, if annot_needed { format!("<{}>", srck) } else { String::new() }, zero));
+        if srck == "bool" { format!("{} && {}", vname, zname) } else { format!("{} + {}", vname, zname) } } } };
+  let mut sel = |name: String, s: &str, i: usize| -> String {
+    let c = forms.get(i).copied().unwrap_or('l');
+    if c == 'l' || s == "a" { return sel_src(s); }
+    defs.push_str(&format!("{}{} := {}\n", if c == 'm' { "~" } else { "" }, name, sel_src(s)));
+    name };
+  let target = if s2 == "-" { format!("m[{}]", sel(format!("ia{}", suffix), s1, 0)) } else { let a = sel(format!("ia{}", suffix), s1, 0); let b = sel(format!("ib{}", suffix), s2, 1); format!("m[{},{}]", a, b) };
+  let opsym = match op { "set" => "=", "add" => "+=", "sub" => "-=", "mul" => "*=", "div" => "/=", _ => "=" };
+  (defs, format!("{} {} {}", target, opsym, srcexpr))
+}
+
 pub fn sources(case: &str) -> (String, String) {
   let f: Vec<&str> = case.split('\t').collect();
   let def = operand_def("m", f[1], f[2], true);
-  let srcdef = operand_def("v", f[7], f[6], false);
-  let target = if f[4] == "-" { format!("m[{}]", sel_src(f[3])) } else { format!("m[{},{}]", sel_src(f[3]), sel_src(f[4])) };
-  let opsym = match f[5] { "set" => "=", "add" => "+=", "sub" => "-=", "mul" => "*=", "div" => "/=", _ => "=" };
-  let bare = f.len() > 8 && f[8] == "var";
-  let zero = match f[7] { "bool" => "true".to_string(), "string" => "\"\"".to_string(), "r64" => "0/1".to_string(), "c64" => "0+0i".to_string(),
-    "f64" | "f32" => "0.0".to_string(), _ => "0".to_string() };
-  let annot_needed = !(f[7] == "f64" || f[7] == "r64" || f[7] == "c64" || f[7] == "bool" || f[7] == "string");
-  let zdef = format!("z{} := {}\n", if annot_needed { format!("<{}>", f[7]) } else { String::new() }, zero);
-  let srcexpr = if bare { "v".to_string() } else if f[7] == "bool" { "v && z".to_string() } else { "v + z".to_string() };
-  (format!("{}{}{}", def, srcdef, zdef), format!("{} {} {}", target, opsym, srcexpr))
+  let (defs, stmt) = stmt_parts(f[3], f[4], f[5], f[6], f[7], if f.len() > 8 { f[8] } else { "tmp" }, "");
+  (format!("{}{}", def, defs), stmt)
 }
 
 /// `aseq <kind> <matrix> (<sel1> <sel2|-> <op> <source> <srckind> <mode>)+`: several assignments to the same
@@ -32,18 +54,9 @@ fn exec_seq(f: &Vec<&str>) -> String {
   let mut out = vec![];
   for (i, st) in f[3..].chunks(6).enumerate() {
     let (s1, s2, op, src, srck, mode) = (st[0], st[1], st[2], st[3], st[4], st[5]);
-    let vname = format!("v{}", i); let zname = format!("z{}", i);
-    let srcdef = operand_def(&vname, srck, src, false);
-    let zero = match srck { "bool" => "true".to_string(), "string" => "\"\"".to_string(), "r64" => "0/1".to_string(), "c64" => "0+0i".to_string(), "f64" | "f32" => "0.0".to_string(), _ => "0".to_string() };
-    let annot_needed = !(srck == "f64" || srck == "r64" || srck == "c64" || srck == "bool" || srck == "string");
-    let zdef = format!("{}{} := {}\n", zname, if annot_needed { format!("<{}>", srck) } else { String::new() }, zero);
-    let srcexpr = if mode == "var" { vname.clone() } else if srck == "bool" { format!("{} && {}", vname, zname) } else { format!("{} + {}", vname, zname) };
-    let target = if s2 == "-" { format!("m[{}]", sel_src(s1)) } else { format!("m[{},{}]", sel_src(s1), sel_src(s2)) };
-    let opsym = match op { "set" => "=", "add" => "+=", "sub" => "-=", "mul" => "*=", "div" => "/=", _ => "=" };
-    let defs = format!("{}{}", srcdef, zdef);
+    let (defs, stmt) = stmt_parts(s1, s2, op, src, srck, mode, &i.to_string());
     let td = match parse_code(&defs) { Ok(t) => t, Err(e) => return format!("harness:{}:{}", e, hexs(&defs)) };
     match std::panic::catch_unwind(std::panic::AssertUnwindSafe(|| intrp.interpret(&td))) { Ok(Ok(_)) => {}, _ => return format!("harness:defs-failed:{}", hexs(&defs)) }
-    let stmt = format!("{} {} {}", target, opsym, srcexpr);
     let ts = match parse_code(&stmt) { Ok(t) => t, Err(e) => return format!("harness:{}:{}", e, hexs(&stmt)) };
     let status = match std::panic::catch_unwind(std::panic::AssertUnwindSafe(|| intrp.interpret(&ts))) { Ok(Ok(_)) => "ok", Ok(Err(_)) => "err", Err(_) => return "hostpanic".into() };
     let t3 = parse_code("m").unwrap();
@@ -56,20 +69,7 @@ fn exec_seq(f: &Vec<&str>) -> String {
 pub fn exec(case: &str) -> String {
   let f: Vec<&str> = case.split('\t').collect();
   if f[0] == "aseq" { return exec_seq(&f); }
-  let def = operand_def("m", f[1], f[2], true);
-  let srcdef = operand_def("v", f[7], f[6], false);
-  let target = if f[4] == "-" { format!("m[{}]", sel_src(f[3])) } else { format!("m[{},{}]", sel_src(f[3]), sel_src(f[4])) };
-  let opsym = match f[5] { "set" => "=", "add" => "+=", "sub" => "-=", "mul" => "*=", "div" => "/=", _ => "=" };
-  let prog = format!("{}{}", def, srcdef);
-  // source: a temporary value (`v + zero`) or the bare variable `v` (field 8)
-  let bare = f.len() > 8 && f[8] == "var";
-  let zero = match f[7] { "bool" => "true".to_string(), "string" => "\"\"".to_string(), "r64" => "0/1".to_string(), "c64" => "0+0i".to_string(),
-    "f64" | "f32" => "0.0".to_string(), _ => "0".to_string() };
-  let annot_needed = !(f[7] == "f64" || f[7] == "r64" || f[7] == "c64" || f[7] == "bool" || f[7] == "string");
-  let zdef = format!("z{} := {}\n", if annot_needed { format!("<{}>", f[7]) } else { String::new() }, zero);
-  let srcexpr = if bare { "v".to_string() } else if f[7] == "bool" { "v && z".to_string() } else { "v + z".to_string() };
-  let prog = format!("{}{}", prog, zdef);
-  let stmt = format!("{} {} {}", target, opsym, srcexpr);
+  let (prog, stmt) = sources(case);
   let t1 = match parse_code(&prog) { Ok(t) => t, Err(e) => return format!("harness:{}:{}", e, hexs(&prog)) };
   let t2 = match parse_code(&stmt) { Ok(t) => t, Err(e) => return format!("harness:{}:{}", e, hexs(&stmt)) };
   let mut intrp = Interpreter::new(0);
@@ -267,6 +267,19 @@ pub fn generate(seed: u64, thorough: bool, sink: &mut Sink) -> Vec<String> {
         }
       }
       if steps.len() >= 2 { cases.push(format!("aseq\t{}\t{}\t{}", kind, first.unwrap(), steps.join("\t"))); sink.hit(&format!("sequence:{}", steps.len())); }
+    }
+  }
+  // how the operands are written: a third of the supported single assignments name their selectors first
+  // (immutable or mutable variables), and a temporary source is sometimes written in place instead
+  if !explore {
+    let mut frng = Rng::new(seed ^ 0xa551);
+    for c in cases.iter_mut() {
+      let f: Vec<String> = c.split('\t').map(|x| x.to_string()).collect();
+      if f[0] != "assign" || f.len() < 10 || f[9] != "ok" { continue; }
+      let mut mode = f[8].clone();
+      if mode == "tmp" && frng.chance(1, 4) { mode = "lit".to_string(); }
+      if frng.chance(1, 3) { let forms: String = (0..2).map(|_| *frng.pick(&['l', 'v', 'v', 'm'])).collect(); mode = format!("{}/{}", mode, forms); }
+      if mode != f[8] { sink.hit(&format!("operands:{}", mode)); let mut g = f.clone(); g[8] = mode; *c = g.join("\t"); }
     }
   }
   if !cases.is_empty() { sink.sample(cases[0].clone()); sink.sample(cases[cases.len() / 2].clone()); }
